@@ -39,8 +39,10 @@ impl TryFrom<&str> for Command {
                 (part, false)
             };
 
-            let short = part.chars().filter(|c| !c.is_lowercase()).collect();
-            let long = part.to_uppercase();
+            // Headers are matched ignoring ASCII case only: the Unicode mappings would turn
+            // `ß` into `SS` and make a non-ASCII mnemonic reachable by an ASCII header.
+            let short = part.chars().filter(|c| !c.is_ascii_lowercase()).collect();
+            let long = part.to_ascii_uppercase();
 
             parts.push(CommandPart {
                 optional,
